@@ -24,11 +24,25 @@ def _idx(labels, x):
     return hits[0] if len(hits) == 1 else None
 
 
+def _warm(H):
+    for f in (lambda h: list(xgi.connected_components(h)), xgi.is_connected, xgi.number_connected_components, xgi.largest_connected_component,
+              xgi.shortest_path_length, xgi.clustering_coefficient, xgi.to_graph, xgi.to_line_graph, xgi.to_bipartite_graph, xgi.to_encapsulation_dag):
+        try:
+            r = f(H)
+            if hasattr(r, "__next__"):
+                list(r)
+        except Exception:
+            pass
+
+
 @harness("C14.graph")
 def graph(ctx, p):
     shape = _shape(p["shape"])
     N, M, edges = shape
-    H, nl, el, c = nets.build_H(ctx, shape)
+    if p.get("warm"):
+        H, nl, el, c = nets.build_H_warm(ctx, shape, _warm)
+    else:
+        H, nl, el, c = nets.build_H(ctx, shape)
     what = p["what"]
     ctx.info["op"] = what
     E = [set(e) for e in edges]
@@ -154,6 +168,8 @@ def spec(tier, seed):
     for s in shp:
         for what in ("components", "paths", "clustering", "to_graph", "line_graph", "bipartite", "dag"):
             units.append(("C14.graph", {"shape": s, "what": what}))
+            if s[0] and s[1] and s[0] <= 3:
+                units.append(("C14.graph", {"shape": s, "what": what, "warm": True}))
     return {
         "units": units,
         "caps": {"paths": 50000, "wall": 900},
